@@ -1,0 +1,19 @@
+//go:build verif
+
+package retrypolicy
+
+import (
+	"github.com/failsafe-go/failsafe-go"
+	"github.com/failsafe-go/failsafe-go/common"
+	"github.com/failsafe-go/failsafe-go/hedgepolicy"
+	"github.com/failsafe-go/failsafe-go/policy"
+)
+
+// lemmaHedgeOverRetry composes the real hedge executor (built by the real ToExecutor) around the real retry executor's
+// closure, exactly as failsafe.NewExecutor(hedge, retry) does, so that the hedge closure's precondition "the inner
+// function may be called from several goroutines at once" is checked against the retry closure (contract in
+// verif_contracts.go).
+func lemmaHedgeOverRetry[R any](hp hedgepolicy.HedgePolicy[R], e *executor[R], fn func(failsafe.Execution[R]) *common.PolicyResult[R], exec failsafe.Execution[R]) *common.PolicyResult[R] {
+	he := hp.ToExecutor(*new(R)).(policy.Executor[R])
+	return he.Apply(e.Apply(fn))(exec)
+}
